@@ -24,6 +24,12 @@ func SingleInitializer(p StandardCodeFormat, a Argument) (Instructions, Register
 	if err != nil {
 		return nil, Registers{}, Memory{}, ExitPanic
 	}
+	// the argument zone holds at most Z_I bytes (A.37: a ∈ Y_{:Z_I}); a longer argument would
+	// run past the top of the 32-bit address space
+	if len(a) > ZI {
+		pvmLogger.Errorf("argument of %d bytes exceeds Z_I", len(a))
+		return nil, Registers{}, Memory{}, ExitPanic
+	}
 	if 5*ZZ+uint64(Z(len(o)))+uint64(Z(len(w)+int(z)*int(ZP)+int(s)+ZI)) > 1<<32 {
 		pvmLogger.Errorf("memory layout calculations failed")
 		return nil, Registers{}, Memory{}, ExitPanic
